@@ -61,15 +61,15 @@ orc_x86_use_long_jumps (OrcX86Target *t, OrcCompiler *c)
 static void
 orc_x86_compiler_max_loop_shift (OrcX86Target *t, OrcCompiler *c)
 {
-  int i;
-  int n = 2;
+  /* log2 of the number of largest-size elements that fit in a register */
+  int n = t->register_size / c->max_var_size;
+  int shift = 0;
 
-  for (i = 1; i; i++) {
-    if ((t->register_size / c->max_var_size) == n)
-      break;
-    n *= 2;
-  } 
-  c->loop_shift = i;
+  while (n > 1) {
+    n >>= 1;
+    shift++;
+  }
+  c->loop_shift = shift;
 }
 
 static void
